@@ -1,10 +1,11 @@
 //! C07 — Newton–Raphson: `newton <poly> <x0> <tol> <itermax> <root|extrema>`
 //!
-//! Observation: `ok f<x> <passes>` | `err <Kind> <passes>` | `panic`; passes are counted from outside
-//! through the evaluation-counting wrapper of c06.rs (two evaluations per pass: g and g').
+//! Observation: `ok f<x> <passes> [~]` | `err <Kind> <passes> [~]` | `panic`; passes are counted from outside
+//! through the evaluation-counting wrapper of c06.rs (two evaluations per pass: g and g'); the trailing `~` marks a
+//! run one of whose stop tests was decided within rounding of its threshold (`marginal_stop`).
 //! The property's oracle is tools/props/c07.py (exact rationals).
 #![allow(dead_code)]
-use crate::c06::{as_kind, as_kind_named, expand_roots, pick_itermax, pick_tol, show_solver, small_root, solver_err_kind, times_quadratic, Counting};
+use crate::c06::{as_kind, as_kind_named, expand_roots, marginal_steps, pick_itermax, pick_tol, show_solver, small_root, solver_err_kind, times_quadratic, Counting};
 use crate::polyio::*;
 use crate::util::*;
 use spindalis::solvers::{newton_raphson_method, SolveMode, SolverError};
@@ -27,22 +28,34 @@ fn answer(line: &str) -> String {
     assert!(mode_tok == "root" || mode_tok == "extrema");
     let mk = || if mode_tok == "root" { SolveMode::Root } else { SolveMode::Extrema };
     let direct = with_poly!(&p, q => newton_raphson_method(q, x0, itermax, tol, mk()));
-    let (counted, evals) = match p {
+    let (counted, evals, points) = match p {
         AnyPoly::S(q) => {
             let c = Counting::new(q);
             let r = newton_raphson_method(&c, x0, itermax, tol, mk());
-            (r, c.evals.get())
+            (r, c.evals.get(), c.points.borrow().clone())
         }
         AnyPoly::I(q) => {
             let c = Counting::new(q);
             let r = newton_raphson_method(&c, x0, itermax, tol, mk());
-            (r, c.evals.get())
+            (r, c.evals.get(), c.points.borrow().clone())
         }
     };
     if !same_result(&direct, &counted) {
         return format!("wrapper-mismatch {} {}", show_solver(&direct), show_solver(&counted));
     }
-    format!("{} {}", show_solver(&direct), (evals + 1) / 2)
+    let mark = if marginal_stop(&points, &direct, tol) { " ~" } else { "" };
+    format!("{} {}{}", show_solver(&direct), (evals + 1) / 2, mark)
+}
+
+/// Was some stop test of this run decided within rounding of its threshold?  (`c06::marginal_steps` has the rule and
+/// its justification.)  The iterates are observed from outside: the points at which the solver evaluated the target
+/// (consecutive distinct points are one Newton step) and the returned value.
+fn marginal_stop(points: &[f64], result: &Result<f64, SolverError>, tol: f64) -> bool {
+    let mut seq: Vec<f64> = points.to_vec();
+    if let Ok(x) = result {
+        seq.push(*x);
+    }
+    marginal_steps(&seq, tol)
 }
 
 /// `(|coefficient|, exponent)` of every term of a univariate polynomial (None: several variables / unbound variable)
